@@ -11,6 +11,8 @@ def _unit(maxn):
     rel = "include/parmcb/sptrees.hpp"
     text = X.src(rel)
     body = X.body_after(text, r"void compute_first_in_path\(\)\s*", "SPTree::compute_first_in_path")
+    body = X.drop_local_const(body, log)
+    body = X.canon(body, [(r"SPSubtree<Graph, WeightMap, Vertex> (\w+) = stack\.top\(\);", ["r"]), (r"for \(auto (\w+) : r\.root->children\(\)\)", ["c"])], log)
     body = X.rewrite(body, [
         (r"std::stack<SPSubtree<Graph, WeightMap, Vertex>> stack;", "size_t sp = 0;", 1, "container-api", "std::stack -> arrays SINFO/SROOT + stack pointer"),
         (r"stack\.emplace\(_source, _root\);", "SINFO[sp] = vp_source; SROOT[sp] = vp_root; sp++;", 1, "container-api", "push (source, root)"),
@@ -21,7 +23,7 @@ def _unit(maxn):
         (r"auto vindex = _index_map\[v\];", "size_t vindex = v;", (1, 3), "container-api", ""),
         (r"_first_in_path\[vindex\] = ([^;]+);", lambda m: "FIRST[vindex] = %s;" % m.group(1).replace("r.info", "r_info"), (1, 3), "container-api", ""),
         (r"for \(auto c : r\.root->children\(\)\)", "for (size_t ci = 0; ci < NCHILD[r_root]; ci++)", (1, 3), "container-api", "range-for over the children list"),
-        (r"stack\.emplace\(SPSubtree<Graph, WeightMap, Vertex> \{ static_cast<Vertex>\(([^{};]*?)\), c \}\);",
+        (r"stack\.emplace\(\s*SPSubtree<Graph, WeightMap, Vertex> \{\s*static_cast<Vertex>\(([^{};]*?)\),\s*c \}\);",
          lambda m: "{ size_t c = CHILD[r_root][ci]; __CPROVER_assert(sp < 2 * MAXN, \"VP_BOUND stack capacity\"); SINFO[sp] = (size_t)(%s); SROOT[sp] = c; sp++; }"
          % m.group(1).replace("r.info", "r_info").replace("c->vertex()", "c").replace("r.root->vertex()", "r_root"), (1, 3), "container-api", "push (label, child); c->vertex() is c"),
     ], log)
